@@ -15,6 +15,9 @@ MD_FC, MD_SC = 2, 10
 RF_FC, RF_SC = 1000, 2
 T0 = 1394368230
 
+FIXED_LO = md.first_of_ts(T0, N, D)
+FIXED_HI = md.first_of_ts(T0 + 600, N, D)
+
 WRITES = ("MW_same", "MW_next", "MW_two", "RW")
 OPS = WRITES + ("NEW_MD", "NEW_RF")
 
@@ -81,6 +84,8 @@ def run_history(seq):
                         res["bounds"] = tuple(int(x) for x in obj.get_bounds())
                     except IOError:
                         res["bounds"] = None
+                    # the same fixed window on every pass (a polling reader): must follow the writes
+                    res["fixed"] = [int(k) for k in obj.read(FIXED_LO, FIXED_HI)] if res["bounds"] else []
                     if written:
                         lo, hi = min(written), max(written)
                         res["range"] = [int(k) for k in obj.read(lo, hi)]
@@ -92,6 +97,9 @@ def run_history(seq):
                     b = res["rf_bounds"]
                     if b[0] is not None:
                         obj.read(b[0], b[1], "ch0")
+                    # metadata queries are issued even before the first metadata write (empty channel)
+                    mfix = obj.read_metadata(FIXED_LO, FIXED_HI, "ch0", method=None)
+                    res["fixed"] = [int(k) for k in mfix if "v" in mfix[k]]
                     if written:
                         lo, hi = min(written), max(written)
                         mdd = obj.read_metadata(lo, hi, "ch0", method=None)
@@ -153,6 +161,9 @@ def run_history(seq):
                             "step %d (%s): md reader born %s get_bounds %r, written %s" % (step, op, born, res["bounds"], sorted(written)), step=step)
                     if res["latest_val"] != [written[hi]]:
                         bad({"class": "latest_value"}, "step %d: read_latest value %r" % (step, res["latest_val"]), step=step)
+                if res.get("fixed") != sorted(written):
+                    bad({"class": "fixed_window_after_write", "reader": kind, "reader_age": "old" if born != "fresh" else "fresh"},
+                        "step %d (%s): %s reader born %s read of the fixed window returned %s, written %s" % (step, op, kind, born, res.get("fixed"), sorted(written)), step=step)
                 if res["range"] != sorted(written):
                     bad({"class": "range_after_write", "reader": kind, "reader_age": "old" if born != "fresh" else "fresh"},
                         "step %d (%s): %s reader born %s read(%d,%d) keys %s, written %s" % (step, op, kind, born, lo, hi, res["range"], sorted(written)), step=step)
